@@ -20,6 +20,30 @@ def badfilter(text):
     raise Boom("planted filter")
 
 
+class BaseBoom(BaseException):
+    """A planted failure that is not an Exception subclass."""
+
+
+def bexit_custom(*args):
+    raise BaseBoom("planted base exception")
+
+
+def bexit_system(*args):
+    raise SystemExit(3)
+
+
+def bexit_keyboard(*args):
+    raise KeyboardInterrupt()
+
+
+def bexit_generator(*args):
+    raise GeneratorExit()
+
+
+# interchangeable ways to fail with a BaseException that is not an Exception (picked by the seed)
+POOL_BEXIT = ["bexit_custom", "bexit_system", "bexit_keyboard", "bexit_generator"]
+
+
 def ident(*args):
     """Return the first argument (used by multi-line expressions)."""
     return args[0]
@@ -52,4 +76,5 @@ def base_ctx(seed=0):
         "boom": "@helper:boom",
         "badfilter": "@helper:badfilter",
         "ident": "@helper:ident",
+        "bexit": "@helper:" + POOL_BEXIT[seed % len(POOL_BEXIT)],
     }
